@@ -118,6 +118,15 @@ def generate(rng, tier, mult):
                 ops = [op_new("GET", "1.1", "http", "a.test", "/", []), "proceed", "write_head #4096", "proceed",
                        "raw_try_response %s" % hx(head[:-cut]), "proceed", "q_must_close", "q_close_reason", "proceed", "q_must_close", "q_close_reason"]
                 out.append({"ops": ops, "meta": {"combo": ["partial-redirect", sconn, order, cut]}})
+    # the exchange that follows a redirect: the redirected request inherits the version and the Connection fields of the original, so the
+    # client-side conditions hold for it as well (the next flow is built like any other: seeded change C10-18 built it by hand)
+    for rv, rconn, sconn, policy in itertools.product(["1.0", "1.1"], REQ_CONN, ["absent", "close", "keep-alive"], ["never", "same_host"]):
+        first = render_response_head("1.1", 302, b"Found", [(b"Location", b"/next"), (b"Content-Length", b"0")])
+        second = render_response_head("1.1", 200, b"OK", conn_fields(sconn) + [(b"Content-Length", b"0")])
+        ops = [op_new("GET", rv, "http", "a.test", "/", conn_fields(rconn, b"connection")), "proceed", "write_head #4096", "proceed",
+               "raw_try_response %s" % hx(first), "proceed", "as_new_flow %s" % policy, "follow", "proceed", "write_head #4096", "proceed",
+               "raw_try_response %s" % hx(second), "proceed", "q_must_close", "q_close_reason"]
+        out.append({"ops": ops, "meta": {"combo": ["second-hop", rv, rconn, sconn, policy]}})
     return out
 
 
@@ -135,6 +144,23 @@ def oracle(script, obs):
         for op, o in zip(script["ops"], obs):
             if op == "q_must_close" and o == "false":
                 return ["%s: a response was returned from an incomplete head (message boundary lost) but the connection is offered for reuse" % script["meta"]["combo"]]
+        return []
+    if script["meta"]["combo"][0] == "second-hop":
+        _k, rv, rconn, sconn, _policy = script["meta"]["combo"]
+        facts = set()
+        if rv == "1.0":
+            facts.add("h10")
+        if rconn in ("close", "both", "both-rev"):
+            facts.add("ccl")
+        if sconn == "close":
+            facts.add("scl")
+        want = len(facts) > 0
+        if obs[-2] not in ("true", "false"):
+            return ["%s: the exchange after the redirect did not reach Cleanup: %s" % (script["meta"]["combo"], obs[-4:])]
+        if (obs[-2] == "true") != want:
+            return ["%s: after the redirect must_close=%s but the conditions that hold for the redirected request are %s" % (script["meta"]["combo"], obs[-2], sorted(facts))]
+        if obs[-1] != "none" and REASONS.get(unhex(obs[-1].split(" ")[1])) not in facts:
+            return ["%s: reason names a condition that does not hold" % script["meta"]["combo"]]
         return []
     rv, rconn, hs, sv, st, framing, sconn = script["meta"]["combo"]
     ops = script["ops"]
